@@ -274,6 +274,44 @@ def navigate(msg, tree, path):
     return msg, t
 
 
+LIST_ORACLE = []       # (kind, op, elements before, the array object, module) of the scalar-array operation being run
+
+
+def list_verdict():
+    """the property's own oracle for scalar arrays, independent of the Lean model: "the observable state always equals that of a
+    plain reference model of those operations" - what a Python list does with the same call.  An operation a list refuses
+    (not a collection, bad index, missing element) must be refused; returns a description of the deviation or None"""
+    if not LIST_ORACLE:
+        return None
+    kind, op, before, arr, mod = LIST_ORACLE.pop()
+    del LIST_ORACLE[:]
+    ref = list(before)
+    try:
+        if kind == 'append':
+            ref.append(py_arg(op['a'], mod))
+        elif kind == 'insert':
+            ref.insert(op['idx'], py_arg(op['a'], mod))
+        elif kind == 'extend':
+            ref.extend(py_arg(op['a'], mod))
+        elif kind == 'setItem':
+            ref[op['idx']] = py_arg(op['a'], mod)
+        elif kind == 'setSlice':
+            ref[slice(op['lo'], op['hi'], op['step'])] = py_arg(op['a'], mod)
+        elif kind == 'delItem':
+            del ref[op['idx']]
+        elif kind == 'delSlice':
+            del ref[op['lo']:op['hi']]
+        elif kind == 'remove':
+            ref.remove(py_arg(op['a'], mod))
+        refused = None
+    except (TypeError, IndexError, ValueError) as ex:
+        refused = type(ex).__name__
+    after = list(arr)
+    if refused is not None:
+        return 'a plain list refuses this call (%s); the message accepted it (elements before %r, after %r)' % (refused, before[:8], after[:8])
+    return None
+
+
 def run_op(msg, tree, op, mod):
     """apply the operation through the public API; returns the canonical exception class or None"""
     try:
@@ -287,6 +325,9 @@ def run_op(msg, tree, op, mod):
             setattr(target, name, py_arg(op['a'], mod))
             return None
         arr = getattr(target, name)
+        member = t['ms'][op['i']] if t['k'] == 'struct' else None
+        if member is not None and member['t']['k'] == 'prim' and kind != 'add':
+            LIST_ORACLE.append((kind, op, list(arr), arr, mod))
         if kind == 'append':
             arr.append(py_arg(op['a'], mod))
         elif kind == 'insert':
@@ -510,14 +551,15 @@ def audit5_cases(chk):
             violation(schema, 'f = d = o = %s; a.append(%s)' % (name, name), 'the message prints differently from the message decoded from its encoding',
                       sent=str(x), decoded=str(y))
     # D163: a rejected sort leaves the array as it was
-    schema = 'hand-written A{u8 n; u16 a<@n>; u16 b[3]}'
-    A = type(sb)('A5', (sb,), {'_descriptor': [('n', prophy.u8), ('a', prophy.array(prophy.u16, bound='n')), ('b', prophy.array(prophy.u16, size=3))]})
-    for field, values in (('a', [5, 3, 9, 1, 7, 200, 100]), ('b', [3, 1, 2])):
-        case(('sort', field))
+    schema = 'hand-written A{u8 n; u16 a<@n>; u16 b[4]}'
+    A = type(sb)('A5', (sb,), {'_descriptor': [('n', prophy.u8), ('a', prophy.array(prophy.u16, bound='n')), ('b', prophy.array(prophy.u16, size=4))]})
+    # keys 3, 1, 2, then None: list.sort has already reordered the first three elements when the comparison with None fails
+    for field, values in (('a', [30, 10, 20, 99, 5, 7]), ('b', [30, 10, 20, 99]), ('a', list(range(10)) + [200, 100])):
+        case(('sort', field, len(values)))
         x = A()
         getattr(x, field)[:] = values
         before, enc = list(getattr(x, field)), x.encode('<')
-        rank = dict((v, i) for i, v in enumerate(reversed(values[:-1])))
+        rank = {30: 3, 10: 1, 20: 2, 5: 5, 7: 7} if values[0] == 30 else dict((v, i) for i, v in enumerate(reversed(values[:-1])))
         try:
             getattr(x, field).sort(rank.get)          # None for the last element: the comparison fails
             violation(schema, '%s.sort(key)' % field, 'a key function returning None for one element was accepted')
@@ -625,6 +667,10 @@ def run_c10(tier):
                     if op is None:
                         continue
                     exc = run_op(msg, c.tree, op, mod)
+                    deviation = list_verdict()
+                    if deviation and exc is None:
+                        chk.property_violation({'schema': c.text, 'type': c.name, 'history': [strip(dict(x, a=strip(x.get('a')))) for x in ops + [op]]},
+                                               {'what': deviation})
                     try:
                         new_state = V.readback(msg, c.tree)
                         text_ok = isinstance(str(msg), str)
